@@ -596,6 +596,7 @@ func genHost(rng *rand.Rand, idx int) *gHost {
 	} else if nDef > 1 {
 		cls["several-default-routes"] = true
 	}
+	prevMetric, prevIface := "", (*gIface)(nil)
 	for i := 0; i < nDef; i++ {
 		it := cands[rng.Intn(len(cands))]
 		verb := "add"
@@ -603,6 +604,15 @@ func genHost(rng *rand.Rand, idx int) *gHost {
 			verb = "append"
 		}
 		m := metrics[rng.Intn(len(metrics))]
+		if i > 0 && rng.Intn(2) == 0 {
+			// same metric as the previous default route, preferably through another interface
+			m, verb = prevMetric, "append"
+			for k := 0; k < 4 && it == prevIface; k++ {
+				it = cands[rng.Intn(len(cands))]
+			}
+			cls["equal-metric-default-routes"] = true
+		}
+		prevMetric, prevIface = m, it
 		spec := "default"
 		var v4 []gAddr
 		for _, a := range it.addrs {
@@ -780,6 +790,18 @@ func genQueries(rng *rand.Rand, h *gHost, n int, withBinary int) []ifQuery {
 		qs = append(qs, ifQuery{Kind: "opts", Iface: pickIface(), SrcIP: srcips[rng.Intn(len(srcips))],
 			SrcMAC: srcmacs[rng.Intn(len(srcmacs))], Target: targets[rng.Intn(len(targets))]})
 	}
+	// --iface with a target that lies on the network of one of its later addresses (and of none, for contrast)
+	for _, it := range h.ifaces {
+		for j, a := range it.addrs {
+			if j == 0 || a.v6 {
+				continue
+			}
+			_, nw, _ := net.ParseCIDR(fmt.Sprintf("%s/%d", a.ip, a.ones))
+			hostIn, _ := randHostIn(rng, nw.String())
+			qs = append(qs, ifQuery{Kind: "opts", Iface: it.name, SrcIP: "-", SrcMAC: "-", Target: nw.String()},
+				ifQuery{Kind: "opts", Iface: it.name, SrcIP: "-", SrcMAC: srcmacs[rng.Intn(len(srcmacs))], Target: hostIn.String()})
+		}
+	}
 	// the ARP command (real binary): small targets only, it really scans when the option stage passes
 	var small []string
 	for t := range seenT {
@@ -860,6 +882,13 @@ func fixedHosts() []*gHost {
 			"link set ve0 up", "link set ve0p up", "-6 addr add ::ffff:10.9.0.1/120 dev ve0",
 			"link add br1 address 02:00:00:00:07:03 type bridge", "link set br1 up", "-4 addr add 10.9.0.7/24 dev br1",
 			"route add default via 10.9.0.254 dev br1"),
+		mk("equal-metric",
+			"link add ve0 address 02:00:00:00:09:01 type veth peer name ve0p address 02:00:00:00:09:02",
+			"link set ve0 up", "link set ve0p up", "-4 addr add 192.168.7.50/24 dev ve0",
+			"link add br1 address 02:00:00:00:09:03 type bridge", "link set br1 up", "-4 addr add 10.1.2.1/24 dev br1",
+			"-4 addr add 10.1.2.130/25 dev br1", "-4 addr add 10.1.0.7/16 dev br1",
+			"route add default via 10.1.2.254 dev br1 metric 100", "route append default via 192.168.7.1 dev ve0 metric 100",
+			"route append default via 10.1.2.253 dev br1 metric 100"),
 		mk("nothing"),
 		mk("no-route",
 			"link add ve0 address 02:00:00:00:08:01 type veth peer name ve0p address 02:00:00:00:08:02",
